@@ -185,4 +185,18 @@ PROPS = {
             {"name": "resume", "pkg": "c12", "run": "^TestC12$", "shards": {"quick": 6, "thorough": 16}, "timeout": {"quick": 400, "thorough": 3000}},
         ],
     },
+    "C14": {
+        "level": "fault_enumeration",
+        "level_text": "A child process built from /repo performs a seeded single-writer run of Append / SaveOffset (incl. a save that first fails under a dead context and is retried) and writes one acknowledgement line per returned call. Kill plans: SIGKILL after the k-th acknowledgement for PRNG k with a PRNG spin, over 1-4 kill / clean-close cycles on the same file; and strace-injected SIGKILL at the N-th pwrite64 / fsync / write / ftruncate of the child for a spread of N (quick) or every N until runs complete un-killed (thorough). After every kill or close the parent reopens the database with the store: every acknowledged append is there at its acknowledged offset, the log is ids 0..m-1 in order with m in {acked, acked+1}, offsets numerically increasing, content unchanged, LoadOffset = last acknowledged save (or the one in flight), schema_version holds one row, a second reopen changes nothing, a further append gets a larger offset.",
+        "level_note": "Process kill only: power loss / torn sectors are not modelled (synchronous=NORMAL makes no promise there and the property does not ask). Offsets are compared numerically here (their lexicographic order is C10's finding). strace counts N per thread; if it cannot attach, that plan is recorded as inconclusive. A kill before the first acknowledgement is inconclusive.",
+        "technique": "runtime monitoring with fault injection: real SIGKILLs of a writer process (by acknowledgement count and by strace syscall-indexed injection), offline comparison of the reopened database with the acknowledgement log",
+        "design_ref": "DESIGN.md section 5 C14",
+        "rule": "distinct = (plan, acknowledged-ops class or syscall+N, cycle); non-trivial = the kill landed after >=1 acknowledgement and before the run's end",
+        "assumptions": ["the acknowledgement file is written with O_APPEND after the store call returned"],
+        "aux_bins": {"sqlitechild": "cmd/sqlitechild"},
+        "parts": [
+            {"name": "kill", "pkg": "c14", "run": "^TestC14$", "shards": {"quick": 4, "thorough": 12}, "timeout": {"quick": 400, "thorough": 3000}},
+            {"name": "strace", "pkg": "c14", "run": "^TestC14Strace$", "shards": {"quick": 4, "thorough": 12}, "timeout": {"quick": 400, "thorough": 3000}},
+        ],
+    },
 }
